@@ -140,4 +140,100 @@ theorem length_le_encL : ∀ xs : List Cbor, xs.length ≤ (encL xs).length
     simp only [encL, List.length_append, List.length_cons]; omega
 end
 
+
+/-- `RawBytes` never slices out of range, for all int64 arguments (the wrap-around of
+    `offset + length` is caught by the `end < offset` guard) -/
+theorem rawBytes_no_oob (len offset length : Int) : rawBytes len offset length ≠ .oob := by
+  unfold rawBytes
+  split
+  · simp
+  · rename_i h1
+    simp only
+    split
+    · simp
+    · rename_i h2
+      split
+      · simp
+      · rename_i h3
+        exfalso; apply h3
+        omega
+
+/-- an accepted request returns exactly `length` bytes starting at `offset` -/
+theorem rawBytes_exact (len offset length lo hi : Int) (ho : isInt64 offset) (hl : isInt64 length)
+    (h : rawBytes len offset length = .val (some (lo, hi))) :
+    lo = offset ∧ hi = offset + length ∧ 0 ≤ lo ∧ hi ≤ len := by
+  unfold rawBytes at h
+  unfold isInt64 two63 at ho hl
+  split at h
+  · cases h
+  · rename_i h1
+    simp only at h
+    split at h
+    · cases h
+    · rename_i h2
+      split at h
+      · rename_i h3
+        simp only [Out.val.injEq, Option.some.injEq, Prod.mk.injEq] at h
+        obtain ⟨rfl, rfl⟩ := h
+        unfold wrapS64 two63 two64 at *
+        refine ⟨rfl, ?_, h3.1, h3.2.2⟩
+        omega
+      · cases h
+
+theorem collectionHeaderAt_no_oob (b : Bytes) (offset : Nat) : collectionHeaderAt b offset ≠ .oob := by
+  unfold collectionHeaderAt
+  split
+  · simp
+  · obtain ⟨f, hf⟩ := rd_ok b offset (by omega)
+    rw [hf]
+    simp only
+    split
+    · simp
+    · split
+      · split
+        · simp
+        · obtain ⟨v, hv⟩ := rdN_ok b (offset + 1) 1 (by omega); rw [hv]; simp
+      · split
+        · split
+          · simp
+          · obtain ⟨v, hv⟩ := rdN_ok b (offset + 1) 2 (by omega); rw [hv]; simp
+        · split
+          · split
+            · simp
+            · obtain ⟨v, hv⟩ := rdN_ok b (offset + 1) 4 (by omega); rw [hv]; simp only; split <;> simp
+          · split
+            · split
+              · simp
+              · obtain ⟨v, hv⟩ := rdN_ok b (offset + 1) 8 (by omega); rw [hv]; simp only; split <;> simp
+            · split <;> simp
+
+theorem tagHeaderAt_no_oob (b : Bytes) (offset : Nat) : tagHeaderAt b offset ≠ .oob := by
+  unfold tagHeaderAt
+  split
+  · simp
+  · obtain ⟨f, hf⟩ := rd_ok b offset (by omega)
+    rw [hf]
+    simp only
+    split
+    · simp
+    · split
+      · simp
+      · split
+        · split
+          · simp
+          · obtain ⟨v, hv⟩ := rdN_ok b (offset + 1) 1 (by omega); rw [hv]; simp
+        · split
+          · split
+            · simp
+            · obtain ⟨v, hv⟩ := rdN_ok b (offset + 1) 2 (by omega); rw [hv]; simp
+          · split
+            · split
+              · simp
+              · obtain ⟨v, hv⟩ := rdN_ok b (offset + 1) 4 (by omega); rw [hv]; simp
+            · split
+              · split
+                · simp
+                · obtain ⟨v, hv⟩ := rdN_ok b (offset + 1) 8 (by omega); rw [hv]; simp
+              · simp
+
 end GV.Proofs.Walkers
